@@ -8,6 +8,7 @@ import (
 	"fmt"
 	"math/rand"
 	"net"
+	"os"
 	"sort"
 	"strconv"
 	"strings"
@@ -43,18 +44,25 @@ var serverMAC = net.HardwareAddr{0x02, 0xaa, 0, 0, 0, 1}
 // at once), so no verdict ever depends on a real timeout racing the scheduler.
 type radSrv struct {
 	conn   *net.UDPConn
-	port   int
+	ip     net.IP // a loopback address of this process's own (127.a.b.c): nobody else binds there, so the port that "down"
+	port   int    // closes can always be re-opened and is never answered by another process's stub
+
 	mu     sync.Mutex
 	mode   string // accept | reject | down
 	secret []byte
 }
 
+var radSeq int
+
 func newRadSrv() *radSrv {
-	c, err := net.ListenUDP("udp4", &net.UDPAddr{IP: net.IPv4(127, 0, 0, 1)})
+	pid := os.Getpid()
+	radSeq++
+	ip := net.IPv4(127, byte(1+pid%250), byte(1+(pid/250)%250), byte(1+radSeq%250))
+	c, err := net.ListenUDP("udp4", &net.UDPAddr{IP: ip})
 	if err != nil {
 		panic(err)
 	}
-	r := &radSrv{conn: c, port: c.LocalAddr().(*net.UDPAddr).Port, mode: "accept", secret: []byte("s3cret")}
+	r := &radSrv{conn: c, ip: ip, port: c.LocalAddr().(*net.UDPAddr).Port, mode: "accept", secret: []byte("s3cret")}
 	go r.loop(c)
 	return r
 }
@@ -73,7 +81,7 @@ func (r *radSrv) setMode(mode string) {
 	}
 	if r.conn == nil {
 		for i := 0; i < 5000; i++ {
-			c, err := net.ListenUDP("udp4", &net.UDPAddr{IP: net.IPv4(127, 0, 0, 1), Port: r.port})
+			c, err := net.ListenUDP("udp4", &net.UDPAddr{IP: r.ip, Port: r.port})
 			if err == nil {
 				r.conn = c
 				go r.loop(c)
@@ -310,7 +318,7 @@ func (r *run) Do(op string) string {
 		if r.radius {
 			r.rad = newRadSrv()
 			cl, err := bngradius.NewClient(bngradius.ClientConfig{
-				Servers: []bngradius.ServerConfig{{Host: "127.0.0.1", Port: r.rad.port, Secret: "s3cret"}},
+				Servers: []bngradius.ServerConfig{{Host: r.rad.ip.String(), Port: r.rad.port, Secret: "s3cret"}},
 				NASID:   "verif", Timeout: 3 * time.Second, Retries: 1,
 			}, zap.NewNop())
 			if err != nil {
